@@ -107,6 +107,16 @@ class C04(DevProp):
                         ev = tap(ACT[u]) * 2 + tap(16) + [k(ACT[first], 1), k(ACT[second], 1)] + tap(17) + \
                             [k(ACT[rel[0]], 0)] + tap(16) + [k(ACT[rel[1]], 0)] + tap(17) + tap(ACT[d]) + tap(16)
                         cases.append({"cfg": cfg, "abs": [], "events": ev, "tag": "pair"})
+        # a pair completed while an action of ANOTHER kind (or a non-step action) is already held: the pair must still reset
+        for cmode in devgen.CMODES[:2]:
+            for (u, d) in PAIRS:
+                others = [x for x in ACT if x not in (u, d)]
+                for third in others:
+                    for first, second in ((u, d), (d, u)):
+                        cfg = base_cfg(rng, cmode, [(60, 0), (64, 3)], {"octave": 2, "semitone": -3, "channel": 5, "mapping": 1})
+                        ev = tap(ACT[u]) + tap(16) + [k(ACT[third], 1), k(ACT[first], 1), k(ACT[second], 1)] + tap(17) + \
+                            [k(ACT[first], 0), k(ACT[second], 0)] + tap(16) + [k(ACT[third], 0)] + tap(17)
+                        cases.append({"cfg": cfg, "abs": [], "events": ev, "tag": "pair-with-third-held"})
         # two keys bound to the same step action, pressed overlapping and one after the other
         for cmode in devgen.CMODES[:2]:
             for a1 in ("octave_up", "octave_down", "semitone_up", "semitone_down", "channel_up", "channel_down", "mapping_up", "mapping_down"):
